@@ -133,6 +133,33 @@ def dmrg_case(ctx, idx, rng):
         ctx.close('repeated-invocation.does-not-raise', max(0.0, float(en2[-1] - en[-1])), TOL * nH, f'second invocation raised the energy {en[-1]} -> {en2[-1]}', detail)
 
 
+def large_case(ctx, idx, rng):
+    """DMRG beyond the dense reach (L 8..14): consistency, monotonicity, normalisation and the start bound through transfer-matrix contractions."""
+    from .. import large
+    two = bool(idx % 2)
+    name, d, L, H = large.pick_large(rng)
+    psi = large.big_state(rng, H.qd, L, int(rng.choice([3, 6])), kind=str(rng.choice(['complex', 'real'])))
+    numiter = int(rng.choice([2, 5, 25]))
+    nsweeps = int(rng.integers(1, 4))
+    n0 = large.norm_of(psi.A)
+    E_start = refs.mpo_element(psi.A, H.A, psi.A).real / n0 ** 2
+    nH = float(np.sum([np.linalg.norm(w) for w in H.A]))
+    integ = 'twosite' if two else 'singlesite'
+    ctx.case(('large', integ, name, f'L{L}', f'numiter{numiter}', f'sweeps{nsweeps}'), sample={'algorithm': integ, 'model': name, 'L': L, 'bond_dims': psi.bond_dims})
+    detail = {'algorithm': integ, 'model': name, 'L': L, 'bond_dims': list(psi.bond_dims), 'numiter': numiter, 'sweeps': nsweeps}
+    en, local = run_dmrg(ctx, H, psi, two, nsweeps, numiter, 0.0, detail, integ)
+    inv = refs.mps_invariant(psi)
+    if not ctx.ok('large.block-sparse-after', inv is None, str(inv), detail):
+        return
+    tol = TOL * max(1.0, nH)
+    ctx.close('large.normalised', abs(large.norm_of(psi.A) - 1), 1e-9, 'not normalised', detail)
+    ctx.close('large.energy==last-reported', abs(refs.mpo_element(psi.A, H.A, psi.A).real - en[-1]), tol, 'energy of the returned state != last reported energy', detail)
+    ctx.close('large.upper-bound', max(0.0, float(en.max() - E_start)), tol, 'reported energy above the start energy', detail)
+    ctx.close('large.monotone-reported', max([0.0] + list(np.diff(en))), tol, f'reported energies increase: {en}', detail)
+    if local:
+        ctx.close('large.monotone-every-local-step', max(0.0, float(np.max(np.diff(np.array([E_start] + local))))), tol, 'a local step raised the energy', detail)
+
+
 CASES = []
 for _name, (_mk, _qd) in MODELS.items():
     _d = len(_qd)
@@ -203,6 +230,7 @@ SPEC = {
                  'trace.local-steps-observed'],
     'workloads': [
         Workload('runs', dmrg_case, quick=780, thorough=64000),
+        Workload('large', large_case, quick=60, thorough=4000),
         Workload('complete', complete_case, quick=len(CASES), thorough=len(CASES) * 30),
     ],
     'shards': {'quick': 4, 'thorough': 16},
